@@ -21,6 +21,7 @@ import (
 	"fmt"
 	"log"
 	"reflect"
+	"sort"
 	"sync"
 	"sync/atomic"
 	"time"
@@ -851,16 +852,25 @@ func (sw *SlidingWindow) getWindowKey(endTime time.Time) string {
 	return fmt.Sprintf("%d", endTime.UnixNano())
 }
 
-// handleLateData handles late data that arrives within allowedLateness
+// handleLateData handles late data that arrives within allowedLateness.
+// Sliding windows overlap, so a late event can belong to several triggered windows
+// that are still open: every one of them is re-delivered, in window order (map
+// iteration order is random, and updating only the first hit left the others stale).
 func (sw *SlidingWindow) handleLateData(eventTime time.Time, allowedLateness time.Duration) {
-	// Find which triggered window this late data belongs to
+	var slots []*types.TimeSlot
 	for _, info := range sw.triggeredWindows {
 		if info.slot.Contains(eventTime) {
-			// This late data belongs to a triggered window that's still open
-			// Trigger window again with updated data (late update)
-			sw.triggerLateUpdateLocked(info.slot)
-			return
+			slots = append(slots, info.slot)
 		}
+	}
+	sort.Slice(slots, func(i, j int) bool { return slots[i].End.Before(*slots[j].End) })
+	for _, slot := range slots {
+		// triggerLateUpdateLocked releases the lock around the callback; skip a
+		// window that was closed in the meantime.
+		if _, open := sw.triggeredWindows[sw.getWindowKey(*slot.End)]; !open {
+			continue
+		}
+		sw.triggerLateUpdateLocked(slot)
 	}
 }
 
